@@ -82,7 +82,8 @@ def run(rep, tier, rng):
             newvecs = iter([algs.fl(algs.rand_vec(rng, d_to, -3, 3)) for _ in range(8)])
             src = spa.Vocabulary(d_from, strict=strict, algebra=A, max_similarity=1e9,
                                  pointer_gen=iter([algs.fl(algs.rand_vec(rng, d_from, -3, 3)) for _ in range(8)]))
-            tgt = spa.Vocabulary(d_to, strict=True, algebra=A, pointer_gen=newvecs, max_similarity=1e9)
+            tgt_strict = bool((len(exprs) + len(src_keys) + (0 if populate is None else 1 + int(populate))) % 2)   # both kinds of target
+            tgt = spa.Vocabulary(d_to, strict=tgt_strict, algebra=A, pointer_gen=newvecs, max_similarity=1e9)
             for k, v in zip(src_keys, svecs):
                 src.add(k, algs.fl(v))
             for k, v in zip(tgt_keys, tvecs):
@@ -101,7 +102,7 @@ def run(rep, tier, rng):
                 o = c.outcome(lambda: src.transform_to(tgt, populate=populate, keys=requested, solver=lstsq if use_solver else None))
             warned = any(issubclass(w.category, NengoWarning) for w in rec)
             src_after, tgt_after = list(src.keys()), list(tgt.keys())
-            base = {"alg": al, "d_from": d_from, "d_to": d_to, "kind": kind, "src_keys": src_keys, "tgt_keys": tgt_keys, "strict": strict,
+            base = {"alg": al, "d_from": d_from, "d_to": d_to, "kind": kind, "src_keys": src_keys, "tgt_keys": tgt_keys, "strict": strict, "target_strict": tgt_strict,
                     "populate": populate, "solver": use_solver, "requested": requested, "src_vectors": svecs, "tgt_vectors": tvecs}
             # ---- the source vocabulary is never changed -------------------------------
             rep.case(("source-unchanged", repr(base)))
@@ -169,6 +170,18 @@ def run(rep, tier, rng):
                         if r[1].vocab is not tgt:
                             rep.violation(f"{nm}: the translated pointer is not a pointer of the target vocabulary", {"case": base})
 
+            # ---- translating a pointer into its OWN vocabulary is still the projection onto the requested keys ----
+            if o[0] == "ok" and src_keys and not use_solver and populate is not True:
+                with warnings.catch_warnings():
+                    warnings.simplefilter("ignore")
+                    keys_in_src = None if requested is None else [k for k in requested if k in src_keys]
+                    t_self = c.outcome(lambda: src.transform_to(src, populate=populate, keys=keys_in_src))
+                    p_self = c.outcome(lambda: src[src_keys[0]].translate(src, populate=populate, keys=keys_in_src))
+                rep.case(("translate-self", repr(base)))
+                rep.count("translate-into-own-vocabulary")
+                if t_self[0] == "ok" and (p_self[0] != "ok" or not np.allclose(p_self[1].v, np.asarray(t_self[1]) @ src[src_keys[0]].v, atol=1e-9 * (1 + np.abs(np.asarray(t_self[1])).max() * 10))):
+                    rep.violation(f"translate of a pointer into its own vocabulary (keys={keys_in_src}) is not transform_to(own vocabulary) applied to it",
+                                  {"case": base, "python": "assert False, 'self-translation skips the projection'\n"})
             # ---- translate on a module output (dynamic node): the pending transform is the same matrix -------
             if o[0] == "ok" and populate is not True and not use_solver:
                 import nengo
@@ -178,6 +191,23 @@ def run(rep, tier, rng):
                     with spa.Network():
                         td = c.outcome(lambda: as_ast_node(spa.State(src, subdimensions=1)).translate(tgt, populate=populate, keys=requested))
                         tf = c.outcome(lambda: spa.translate(spa.State(src, subdimensions=1), tgt, populate=populate, keys=requested))
+                    if d_from == d_to or True:
+                        def composed():
+                            with spa.Network() as net2:
+                                st = spa.State(src, subdimensions=1)
+                                sink = spa.State(tgt, subdimensions=1)
+                                spa.translate(~st if al != "AVtb" else st.rinv(), tgt, populate=populate, keys=requested) >> sink
+                            conns = [cn for cn in net2.all_connections if cn.post_obj is sink.input and cn.pre_obj is st.output]
+                            return np.asarray(conns[0].transform.init) if len(conns) == 1 else None
+                        tc = c.outcome(composed)
+                        rep.case(("translate-composed", repr(base)))
+                        rep.count("translate-composed-with-inverse")
+                        from nengo_spa.algebras.base import ElementSidedness as _E
+                        Minv = A.get_inversion_matrix(d_from) if al != "AVtb" else A.get_inversion_matrix(d_from, sidedness=_E.RIGHT)
+                        if tc[0] != "ok" or tc[1] is None or np.shape(tc[1]) != (d_to, d_from) or not np.allclose(tc[1], np.asarray(o[1]) @ Minv):
+                            rep.violation(f"translate(~module) >> sink connects with a transform other than (translation matrix) . (inversion matrix) ({al}, {d_from}->{d_to})",
+                                          {"case": base, "observed": None if tc[0] != "ok" or tc[1] is None else np.asarray(tc[1]).tolist(),
+                                           "python": "assert False, 'nested transforms composed in the wrong order'\n"})
                 for nm, r in (("translate-dynamic-node", td), ("translate-module", tf)):
                     rep.case((nm, repr(base)))
                     rep.count(nm)
